@@ -1569,6 +1569,7 @@ package xpath
 //@ func (*parser).parseUnaryExpr
 //@   mode int
 //@   props C06 C10 C17 C15 C08
+//@   loop 0 invariant[sign-parity@C08] p.r.ntok >= old(p.r.ntok) && minus == ((p.r.ntok - old(p.r.ntok)) % 2 == 1)     // one negation per '-' token consumed
 //@   ensures[negation@C08] minus ==> is(result, *operatorNode) && as(result, *operatorNode).Op == "*" && is(as(result, *operatorNode).Right, *operandNode) && as(as(result, *operatorNode).Right, *operandNode).Val == box(float(0 - 1))
 //@   requires[depth@C06] p != nil && 0 <= p.d && p.d <= 200
 //@   maypanic
@@ -2092,9 +2093,11 @@ package xpath
 //@   ensures[swf@C17] swf(p.r)
 //@   ensures[progress@C06] pmeas(p.r) < old(pmeas(p.r))
 //@   loop * decreases pmeas(p.r)
+//@ ghostfield scanner.ntok     // history variable: how many tokens the scanner has delivered so far
 //@ func (*parser).next
 //@   mode int
-//@   props C06
+//@   props C06 C08
+//@   ensures[one-token@C08] p.r.ntok == old(p.r.ntok) + 1
 //@   requires p != nil
 //@   requires[swf@C17] swf(p.r)
 //@   ensures[swf@C17] swf(p.r)
@@ -2123,6 +2126,7 @@ package xpath
 //@ func (*scanner).nextItem
 //@   props C06 C17
 //@   mode int
+//@   ghostset s.ntok = old(s.ntok) + 1
 //@   requires[swf@C17] swf(s)
 //@   maypanic
 //@   modifies heap(F:scanner.*)
